@@ -68,6 +68,24 @@ fn dispatch(args: &[String]) -> i32 {
             chain_bench(args.get(1).and_then(|s| s.parse().ok()).unwrap_or(20));
             0
         }
+        Some("find-cfg") => {
+            // diagnostic: first run seeds (of the check's own seed sequence) whose generated plan has cfg[key] == value
+            let (w, target, key, val) = (args[1].clone(), args[2].clone(), args[3].clone(), args[4].parse::<i64>().unwrap_or(1));
+            let world = worlds::lookup(&w).expect("world");
+            let mut found = 0;
+            for i in 0..2_000_000u64 {
+                let seed = runner::run_seed_of(verif_seed(), world.name(), &target, i);
+                let plan = world.generate(seed, &target, false);
+                if plan.get_or(&key, i64::MIN) == val {
+                    println!("run #{i} seed {seed} cfg {:?} ops {}", plan.cfg, plan.ops.len());
+                    found += 1;
+                    if found >= 3 {
+                        break;
+                    }
+                }
+            }
+            0
+        }
         Some("psl-bench") => {
             psl_bench(args.get(1).and_then(|s| s.parse().ok()).unwrap_or(1_000_000), args.get(2).and_then(|s| s.parse().ok()).unwrap_or(1));
             0
